@@ -274,6 +274,9 @@ def run(ctx):
                 ctx.inst('R5', fn + '#postprocess', False, 'the canvas is also passed to %s; frame_image/layer_image '
                          'must not post-process the image' % cn, c.span, key=ctx.key(fn, 'R5', 'touch', cn))
         ctx.floor('write_cel calls in ' + fn.split('::')[-1], writes, 1)
+    import render as _render
+    _render.layer_image_unconditional(ctx, rule='R5')
+    _render.order(ctx, rule='R5')
     simple = {
         'asefile::tilemap::Tilemap::image': ('asefile::cel::Cel::image', [(1, ['cel'])]),
         'asefile::file::Frame::image': ('asefile::file::AsepriteFile::frame_image', [(1, ['file']), (1, ['index'])]),
